@@ -104,8 +104,17 @@ class Roles:
         if not (self.E_SIZE and self.E_KEY and self.E_VAL):
             self._fail("anchor-missing: Entry size/key/value fields")
         # --- link direction: the link peek_lru reads off the seal leads to the LRU entry
-        self.L_LRU = self._seal_link_of("peek_lru")
-        self.L_MRU = self._seal_link_of("peek_mru")
+        a = self._seal_links_read("peek_lru")
+        b = self._seal_links_read("peek_mru")
+        self.L_LRU = next(iter(a)) if len(a) == 1 else None
+        self.L_MRU = next(iter(b)) if len(b) == 1 else None
+        # one of the two observers may read both links (e.g. after an edit that relinks): the other one decides
+        if self.L_LRU and not self.L_MRU:
+            rest = [l for l in links if l != self.L_LRU]
+            self.L_MRU = rest[0] if len(rest) == 1 else None
+        elif self.L_MRU and not self.L_LRU:
+            rest = [l for l in links if l != self.L_MRU]
+            self.L_LRU = rest[0] if len(rest) == 1 else None
         if not self.L_LRU or not self.L_MRU or self.L_LRU == self.L_MRU:
             self._fail("role-ambiguous: cannot tell the LRU-side from the MRU-side link (peek_lru reads %r, peek_mru reads %r)"
                        % (self.L_LRU, self.L_MRU))
@@ -152,11 +161,11 @@ class Roles:
                             return p[1]["n"]
         return None
 
-    def _seal_link_of(self, api):
-        """which link field of Entry is read in the bodies reachable from pub fn `api`"""
+    def _seal_links_read(self, api):
+        """which link fields of Entry are read in the bodies reachable from pub fn `api`"""
         b = self.method(api)
         if b is None:
-            return None
+            return set()
         found = set()
         for path, body in self.cg.reach(b, include_drops=False).items():
             for bl in body.blocks:
@@ -167,9 +176,7 @@ class Roles:
                         for e in pl["p"]:
                             if e["k"] == "field" and e.get("of") == self.entry and e.get("n") in self.links:
                                 found.add(e["n"])
-        if len(found) == 1:
-            return found.pop()
-        return None
+        return found
 
     # ---- type helpers
     def is_cache_ty(self, ty):
